@@ -268,7 +268,7 @@ Proof. cbv zeta. split; [apply lev_rename_invariant|split; vm_compute; reflexivi
 (* system is data and torch.save is an emitted event (C17.SrcRun.ext17).  Proofs: C17/TieAli.v, Tie*.v.    *)
 (* ==================================================================================================== *)
 From Coq Require Import String.    (* from here on [length] is String.length: lists use List.length *)
-From PV Require MiniPy.Syntax MiniPy.Interp C17.SrcRun C17.TieLib C17.TieAli C17.Tie.
+From PV Require MiniPy.Syntax MiniPy.Interp C17.SrcRun C17.TieLib C17.TieAli C17.TieMom C17.TieDs C17.Tie.
 
 (* _torch_ali_dir_to_torch_token_dir_do_work: for every file system holding the alignment [v] at
    os.path.join(ali_dir, basename), the interpreted worker returns None and its only effect is
@@ -327,3 +327,78 @@ Theorem c17_source_tok2ali_accepts_iff_partition : forall fs b rd ad rows,
       \/ Tie.raises (SrcRun.run_tok2ali fs b rd ad Syntax.VNone) "RuntimeError"%string).
 Proof. exact Tie.source_tok2ali_accepts_iff_partition. Qed.
 Print Assumptions c17_source_tok2ali_accepts_iff_partition.
+
+(* ---- length moments: _print_torch_ali_data_dir_length_moments / _print_torch_ref_data_dir_length_moments ---- *)
+
+(* for every file system, file name, exclude list (None or any 1-D tensor of ids) and stored alignment the interpreted
+   worker returns exactly the model's (sum, sum of squares, count), without any effect *)
+Theorem c17_source_ali_moments_is_model : forall fs fn excl v,
+  Interp.dict_get fs fn = Some (SrcRun.enc_tensor (Vec v)) ->
+  exists st, SrcRun.run_ali_moments fs fn excl = Interp.Ok (SrcRun.mom_value (ali_moments excl (Vec v))) st
+             /\ Interp.events st = [].
+Proof. exact TieMom.ali_moments_tie. Qed.
+Print Assumptions c17_source_ali_moments_is_model.
+
+(* COMPOSED with ProofsDir.ali_moments_lens: these are the moments of exactly the list of lengths that
+   c17_moments_pooled pools (maximal runs whose label is not excluded) *)
+Theorem c17_source_ali_moments_pooled_input : forall fs fn excl v,
+  Interp.dict_get fs fn = Some (SrcRun.enc_tensor (Vec v)) ->
+  exists st, SrcRun.run_ali_moments fs fn excl
+             = Interp.Ok (SrcRun.mom_value (mom_of (ali_lens excl (Vec v)))) st /\ Interp.events st = [].
+Proof. exact Tie.source_ali_moments_lens. Qed.
+Print Assumptions c17_source_ali_moments_pooled_input.
+
+(* COMPOSED with the run-length lemmas, purely about the interpreted source: without exclusions the first returned
+   figure is the number of frames *)
+Theorem c17_source_ali_moments_frames : forall fs fn v,
+  Interp.dict_get fs fn = Some (SrcRun.enc_tensor (Vec v)) ->
+  exists ss c st, SrcRun.run_ali_moments fs fn None
+                  = Interp.Ok (Syntax.VTuple [Syntax.VInt (Z.of_nat (List.length v)); Syntax.VInt ss; Syntax.VInt c]) st
+                  /\ Interp.events st = [].
+Proof. exact Tie.source_ali_moments_frames. Qed.
+Print Assumptions c17_source_ali_moments_frames.
+
+(* the ref worker, for EVERY stored tensor (any rank, width, content - no well-formedness needed): the model's
+   moments of the valid, not excluded segments, and a message exactly when the model says there is one (shape other
+   than (R, 3), or an invalid segment that is not excluded) *)
+Theorem c17_source_ref_moments_is_model : forall fs u d p s excl t,
+  Interp.dict_get fs (TieMom.ref_file d p u s) = Some (SrcRun.enc_tensor t) ->
+  exists st, SrcRun.run_ref_moments fs u d p s excl
+             = Interp.Ok (SrcRun.ref_moments_value (ref_moments excl t)) st /\ Interp.events st = [].
+Proof. exact TieMom.ref_moments_tie. Qed.
+Print Assumptions c17_source_ref_moments_is_model.
+
+(* ---- _TranscriptDataSet.__getitem__ ------------------------------------------------------------------------- *)
+
+(* for every transcript [tr] that data.token_to_transcript returns (any mixture of plain and timed tokens) whose
+   remaining int tokens are not keys of id2token: (utt_id, tr with the timing stripped on request), or ValueError
+   exactly when an id2token map was given and a token is still an int *)
+Theorem c17_source_getitem_is_model : forall utt tok i2t fs strip tr,
+  TieDs.ints_unknown i2t tr ->
+  TieDs.outcome_of utt (TieDs.finish_transcript i2t strip tr)
+    (Interp.run (SrcRun.ext17_ds (Syntax.VTuple [utt; tok]) tr) Gen.C17Src.tds_getitem
+                (SrcRun.getitem_vars (SrcRun.ds_self i2t fs strip) (Syntax.VInt 0))).
+Proof. exact TieDs.getitem_tie. Qed.
+Print Assumptions c17_source_getitem_is_model.
+
+(* with data.token_to_transcript = PV.C11.Model.token_to_transcript: the whole of Model.load_transcript, for every
+   stored tensor, frame shift, strip_timing, and every id2token whose values are strings (what _parse_token2id
+   builds; with an int VALUE the source's `assert token not in self.id2token` could fail instead) *)
+Theorem c17_source_load_transcript_is_model : forall i2t fs strip t,
+  TieDs.i2t_strings i2t ->
+  SrcRun.src_load_transcript i2t fs strip t = Some (load_transcript i2t fs strip t).
+Proof. exact TieDs.load_transcript_tie. Qed.
+Print Assumptions c17_source_load_transcript_is_model.
+
+(* the interpreted workers on concrete files: an alignment and its segments, a guard, moments, a transcript *)
+Example c17_source_nonvacuous :
+  SrcRun.src_ref_of_ali (Vec [1; 1; 2; 2; 2; 1]) = Some (Done (Mat 3 [[1; 0; 2]; [2; 2; 5]; [1; 5; 6]]))
+  /\ SrcRun.src_ali_of_ref_feat None (Mat 3 [[1; 0; 2]; [2; 2; 5]; [1; 5; 6]]) = Some (Done (Vec [1; 1; 2; 2; 2; 1]))
+  /\ SrcRun.src_ali_of_ref_feat (Some (Some (Mat 2 [[0; 0]; [0; 0]]))) (Mat 3 [[1; 0; 2]; [2; 2; 5]]) = Some (Fail EValue)
+  /\ SrcRun.src_ali_of_ref_feat None (Mat 3 [[1; 0; 2]; [2; 2; 1]]) = Some (Fail ERuntime)
+  /\ SrcRun.src_ali_moments (Some [2]) (Vec [1; 1; 2; 2; 2; 1]) = Some (3, 5, 2)
+  /\ SrcRun.src_ref_moments (Some [2]) (Mat 3 [[1; 0; 2]; [2; 2; 5]; [1; 5; 4]]) = Some ((2, 4, 1), true)
+  /\ SrcRun.src_load_transcript (Some [(1, TStr [97])]) None true (Mat 3 [[1; 0; 2]; [1; -1; -1]])
+     = Some (Done [Plain (TStr [97]); Plain (TStr [97])])
+  /\ SrcRun.src_load_transcript (Some [(1, TStr [97])]) None false (Vec [1; 7]) = Some (Fail EValue).
+Proof. vm_compute. repeat split; reflexivity. Qed.
